@@ -32,17 +32,25 @@ UNPROVED = ["floating-point accuracy of interpolation / quadrature (theorems are
             "file formatting itself (only the token layout and parse-after-format are modelled)"]
 
 MANIFEST = dict(
-    text=("Theorems about the Gallina model of src/mesh1d.rs / src/mesh2d.rs (storage as the code stores it: node (i,j) at i*ny+j; all sizes, "
-          "all values): get-after-set laws for the guarded accessors and the index operators through the i*ny+j bijection, cross-sections, "
-          "var_as_matrix, assign, apply, lifted to any sequence of writes; over R on grids with spacing > 2 x the snapping window (the window "
-          "is the constant regenerated from the source): interpolation returns the nodal values at nodes and the cell's linear interpolant "
-          "inside a cell (the loop over all cells with later cells overwriting is modelled as written); trapezium = sum of cell contributions, "
-          "exact for linear / bilinear data; read(layout(m)) = m on tokens given parse(fmt x) = x. The same definitions are run on primitive "
-          "floats / Qc against the implementation on every check (histories, whole state compared after every operation, bit-identical expected), "
-          "and a dictionary-of-nodes reference with exact rational arithmetic searches for a failing input."),
-    note=("float accuracy is not proved (theorems over R; the float tier is a bit-exact tie + search with the tolerances of DESIGN 7); file "
-          "formatting is outside the model (token layout only); powf is modelled as a product; raw (i,j) index operators are checked only "
-          "up to the flat-storage bounds."),
+    text=("33 theorems about the Gallina model of src/mesh1d.rs / src/mesh2d.rs (storage as the code stores it: node (i,j) at i*ny+j; every "
+          "Vec access and usize subtraction checked; all sizes, all values). Any arithmetic, any coordinate type, closed under the global "
+          "context: get-after-set for the guarded accessors and the index operators through the i*ny+j bijection (injective and onto), "
+          "cross-sections in both directions, var_as_matrix, assign, apply, out-of-range rejection, and refinement of ANY sequence of valid "
+          "writes to a function-update specification - also stated for the very step function the correspondence check executes. Over R on "
+          "grids whose spacing exceeds twice the snapping window (the window is the constant regenerated from the source on every run): the "
+          "interpolation loop (all cells tested, later cells overwriting) returns the nodal values at nodes, the cell's linear interpolant "
+          "inside a cell, the right-hand neighbour's line inside a window (with the error bound |slope|*window), zeros outside - an exhaustive "
+          "case analysis - and reproduces linear data at every point of the grid range; trapezium and square_trapezium = sum of cell contributions, exact for linear / bilinear data on ANY nodes. Token "
+          "level: output writes nvars+1 tokens per node line (2-D: x y vars, blank line per y); read(output(m)) = m for any receiving mesh "
+          "given parse(fmt x) = x; the reader on an arbitrary complete token stream; an unparsable token never yields a mesh. The same "
+          "definitions run on primitive floats / Qc against the implementation on every check (operation histories with state read-backs, "
+          "bit-identical expected and observed), and a dictionary-of-nodes reference in exact rational arithmetic searches for a failing input. "
+          "Five Appendix-D variants (i*nx+j, swapped cross-section, weight 1/2, nvars-token reader, dropped right-node clause) are refuted "
+          "against the theorems' conclusions in Legacy/meshRefuted.v."),
+    note=("PARTIAL: floating-point accuracy is not proved (interpolation / quadrature theorems are over R; the f64 instance is tied "
+          "bit-for-bit and searched with the tolerances of DESIGN 7: exact at nodes, 4 ulp at the last node, rounding-bound tolerance for "
+          "quadrature); number formatting is outside the model (token layout and parse-after-format only; the tie runs the table of "
+          "formatted values); powf(|v|,2) is modelled as |v|*|v|; raw (i,j) index operators are checked up to the flat-storage bounds only."),
     technique="Coq proof (generic Arith / R) + model/implementation differential execution (vm_compute vs Rust executor) + reference-model search",
     design="7 (C19)")
 
